@@ -1,3 +1,158 @@
-From Coq Require Import ZArith List Lia.
+(* C10 part 1 — proofs about the socket I/O loops over an arbitrary kernel oracle. *)
+From Coq Require Import ZArith List Lia Bool.
 From PV Require Import Base.U64 C10.C10_Model.
-Lemma placeholder : True. Proof. exact I. Qed.
+Import ListNotations.
+Local Open Scope Z_scope.
+
+(* ------------------------------------------------------------------ well-formedness *)
+Definition wf_ans (a : sysans) : Prop := match a with Ret n => 0 <= n | Fail e => 0 < e end.
+Definition wf_script (l : list sysans) : Prop := Forall wf_ans l.
+Definition wf_view (v : view) : Prop := Forall (fun e => 0 <= len e) v.
+
+(* chronological list of the addresses moved so far *)
+Definition tch (k : kst) : list Z := rev (k_touched k).
+
+(* why a call failed: the last thing that happened is a kernel error that is neither EINTR nor EAGAIN
+   (errno = that error), or a wait that timed out (errno = ETIMEDOUT) or was interrupted *)
+Definition fail_reason (k : kst) : Prop :=
+  match k_log k with
+  | ESys _ _ _ r :: _ => r = - k_errno k /\ 0 < k_errno k /\ k_errno k <> EINTR /\ k_errno k <> EAGAIN
+  | EWait _ _ a :: _ => (a = 1 /\ k_errno k = ETIMEDOUT) \/ a = 2
+  | [] => False
+  end.
+(* a genuine end-of-stream: the kernel answered 0 to a request for at least one byte *)
+Definition eof (k : kst) : Prop :=
+  match k_log k with
+  | ESys _ _ v 0 :: _ => 0 < vsum v
+  | _ => False
+  end.
+
+(* ------------------------------------------------------------------ lists of addresses *)
+Lemma addrs_from_length b n : length (addrs_from b n) = n.
+Proof. revert b; induction n; simpl; intros; auto. Qed.
+
+Lemma addrs_from_app b n m : addrs_from b (n + m) = addrs_from b n ++ addrs_from (b + Z.of_nat n) m.
+Proof.
+  revert b; induction n; intros b.
+  - simpl. f_equal. lia.
+  - cbn [Nat.add addrs_from app]. rewrite IHn. do 3 f_equal. lia.
+Qed.
+
+Lemma vsum_nonneg v : wf_view v -> 0 <= vsum v.
+Proof. induction 1; simpl; lia. Qed.
+
+Lemma flat_length v : wf_view v -> Z.of_nat (length (flat v)) = vsum v.
+Proof.
+  induction 1 as [|e r He Hr IH]; simpl; auto.
+  rewrite app_length, Nat2Z.inj_add, IH. unfold iov_addrs. rewrite addrs_from_length. lia.
+Qed.
+
+(* ------------------------------------------------------------------ extract_front / skip_empty *)
+Lemma ef_loop_spec : forall v bytes,
+  wf_view v -> 0 < bytes <= vsum v ->
+  fst (ef_loop bytes v) = 0 /\ wf_view (snd (ef_loop bytes v)) /\
+  flat v = firstn (Z.to_nat bytes) (flat v) ++ flat (snd (ef_loop bytes v)).
+Proof.
+  induction v as [|e r IH]; intros bytes Hwf Hb.
+  - simpl in Hb. lia.
+  - inversion Hwf as [|? ? He Hr]; subst. cbn [ef_loop vsum] in *.
+    destruct (bytes <=? len e) eqn:Hle.
+    + apply Z.leb_le in Hle. cbn [fst snd].
+      assert (Hsplit : iov_addrs e = addrs_from (base e) (Z.to_nat bytes) ++
+                        addrs_from (base e + bytes) (Z.to_nat (len e - bytes))).
+      { unfold iov_addrs. replace (Z.to_nat (len e)) with (Z.to_nat bytes + Z.to_nat (len e - bytes))%nat by lia.
+        rewrite addrs_from_app. do 2 f_equal. lia. }
+      split; [reflexivity|].
+      destruct (len e - bytes =? 0) eqn:Hz.
+      * apply Z.eqb_eq in Hz. split; [assumption|].
+        cbn [flat]. rewrite firstn_app.
+        assert (Hl : length (iov_addrs e) = Z.to_nat bytes) by (unfold iov_addrs; rewrite addrs_from_length; lia).
+        rewrite Hl, Nat.sub_diag. cbn [firstn]. rewrite app_nil_r.
+        rewrite firstn_all2 by lia. reflexivity.
+      * apply Z.eqb_neq in Hz. split.
+        { constructor; [cbn; lia | assumption]. }
+        cbn [flat]. rewrite firstn_app.
+        assert (Hl : length (iov_addrs e) = Z.to_nat (len e)) by (unfold iov_addrs; rewrite addrs_from_length; lia).
+        rewrite Hl. replace (Z.to_nat bytes - Z.to_nat (len e))%nat with 0%nat by lia.
+        cbn [firstn]. rewrite app_nil_r.
+        rewrite Hsplit at 2. rewrite firstn_app, addrs_from_length, Nat.sub_diag. cbn [firstn]. rewrite app_nil_r.
+        rewrite firstn_all2 by (rewrite addrs_from_length; lia).
+        unfold iov_addrs at 2. cbn [base len]. rewrite Hsplit at 1. rewrite <- app_assoc. reflexivity.
+    + apply Z.leb_gt in Hle.
+      destruct (IH (bytes - len e) Hr) as (H1 & H2 & H3); [lia|].
+      split; [assumption|]. split; [assumption|].
+      cbn [flat]. rewrite firstn_app.
+      assert (Hl : length (iov_addrs e) = Z.to_nat (len e)) by (unfold iov_addrs; rewrite addrs_from_length; lia).
+      rewrite Hl. rewrite firstn_all2 by lia.
+      replace (Z.to_nat bytes - Z.to_nat (len e))%nat with (Z.to_nat (bytes - len e)) by lia.
+      rewrite <- app_assoc. f_equal. exact H3.
+Qed.
+
+Lemma extract_front_spec v bytes :
+  wf_view v -> 0 < bytes <= vsum v ->
+  wf_view (snd (extract_front bytes v)) /\
+  flat v = firstn (Z.to_nat bytes) (flat v) ++ flat (snd (extract_front bytes v)).
+Proof.
+  intros Hwf Hb. unfold extract_front.
+  destruct (bytes =? 0) eqn:Hz; [apply Z.eqb_eq in Hz; lia|].
+  destruct (ef_loop_spec v bytes Hwf Hb) as (_ & H2 & H3).
+  destruct (ef_loop bytes v) as [l v'] eqn:E. cbn [snd] in *. auto.
+Qed.
+
+(* the head of the view is a non-empty element, or the view holds no byte at all *)
+Definition head_ok (v : view) : Prop := flat v = [] \/ exists e r, v = e :: r /\ 0 < len e.
+
+Lemma skip_empty_spec keep v :
+  wf_view v -> wf_view (skip_empty keep v) /\ flat (skip_empty keep v) = flat v.
+Proof.
+  induction 1 as [|e r He Hr IH]; [simpl; split; [constructor|reflexivity]|].
+  cbn [skip_empty]. destruct ((keep <? Z.of_nat (length (e :: r))) && (len e =? 0)) eqn:C.
+  - apply andb_true_iff in C. destruct C as [_ C]. apply Z.eqb_eq in C.
+    destruct IH as [I1 I2]. split; [assumption|]. rewrite I2. cbn [flat]. unfold iov_addrs. rewrite C. reflexivity.
+  - split; [constructor; assumption | reflexivity].
+Qed.
+
+Lemma skip_empty0_head v : wf_view v -> skip_empty 0 v = [] \/ exists e r, skip_empty 0 v = e :: r /\ 0 < len e.
+Proof.
+  induction 1 as [|e r He Hr IH]; [left; reflexivity|].
+  cbn [skip_empty]. replace (0 <? Z.of_nat (length (e :: r))) with true by (symmetry; apply Z.ltb_lt; simpl; lia).
+  cbn [andb]. destruct (len e =? 0) eqn:C; [exact IH|].
+  apply Z.eqb_neq in C. right. exists e, r. split; [reflexivity|lia].
+Qed.
+
+Lemma skip_empty1_head v : wf_view v -> head_ok (skip_empty 1 v).
+Proof.
+  induction 1 as [|e r He Hr IH]; [left; reflexivity|].
+  cbn [skip_empty]. destruct ((1 <? Z.of_nat (length (e :: r))) && (len e =? 0)) eqn:C; [exact IH|].
+  apply andb_false_iff in C. destruct C as [C|C].
+  - apply Z.ltb_ge in C. destruct r; [|simpl in C; lia].
+    destruct (Z.eq_dec (len e) 0) as [Hz|Hz].
+    + left. cbn [flat]. unfold iov_addrs. rewrite Hz. reflexivity.
+    + right. exists e, []. split; [reflexivity|lia].
+  - apply Z.eqb_neq in C. right. exists e, r. split; [reflexivity|lia].
+Qed.
+
+Lemma head_ok_vsum v : wf_view v -> head_ok v -> flat v = [] \/ 0 < vsum v.
+Proof.
+  intros Hwf [H|(e & r & -> & He)]; [left; assumption|right].
+  inversion Hwf; subst. cbn [vsum]. pose proof (vsum_nonneg r H2). lia.
+Qed.
+
+(* ------------------------------------------------------------------ the kernel *)
+Lemma ksys_spec kind fl v k ret k1 :
+  wf_view v -> wf_script (k_sys k) ->
+  ksys kind fl v k = Some (ret, k1) ->
+  exists a, k_sys k = a :: k_sys k1 /\ wf_script (k_sys k1) /\ k_wt k1 = k_wt k /\ k_elapsed k1 = k_elapsed k /\
+    ((exists n, a = Ret n /\ ret = Z.min n (vsum v) /\ 0 <= ret <= vsum v /\
+                tch k1 = tch k ++ firstn (Z.to_nat ret) (flat v) /\
+                k_log k1 = ESys kind fl v ret :: k_log k)
+     \/ (exists e, a = Fail e /\ 0 < e /\ ret = -1 /\ tch k1 = tch k /\ k_errno k1 = e /\
+                   k_log k1 = ESys kind fl v (- e) :: k_log k)).
+Proof.
+  intros Hv Hs H. unfold ksys in H. destruct (k_sys k) as [|a rest] eqn:E; [discriminate|].
+  inversion Hs as [|? ? Ha Hrest]; subst.
+  destruct a as [n|e]; inversion H; subst; clear H; cbn [k_sys k_wt k_elapsed k_log k_errno].
+  - exists (Ret n). repeat split; auto. left. exists n. cbn in Ha. pose proof (vsum_nonneg v Hv).
+    repeat split; try lia. unfold tch. cbn [k_touched]. rewrite rev_app_distr, rev_involutive. reflexivity.
+  - exists (Fail e). repeat split; auto. right. exists e. cbn in Ha. repeat split; auto.
+Qed.
